@@ -21,7 +21,8 @@ Import ListNotations.
 (* ---- the pandas interface, as modelled by DF/Frames.v ---- *)
 Definition frames_ops (c : nat) : pd_ops :=
   mk_pd_ops frame (fun f => Z.of_nat (length f)) (fun f => psize (col c f)) (fun f => psum (col c f))
-            (fun f => psumsq (col c f)) (fun f => pcount (col c f)) (fun _ => []).
+            (fun f => psumsq (col c f)) (fun f => pcount (col c f)) (fun _ => [])
+            (fun n f => firstn (Z.to_nat n) f) (fun n f => skipn (Z.to_nat n) f).
 
 (* a float result as the model's `option Qc` (None = NaN; the model does not tell an infinity from NaN) *)
 Definition f2o (r : fnum) : option Qc := match r with FNum q => Some q | _ => None end.
@@ -70,11 +71,11 @@ Ltac frames_open :=
   cbn [frames_ops ser p_len p_size p_sum p_sumsq p_count p_empty
        on_new on_old initial sum_s count_s size_s mean_s var_s nonempty
        repaired mean_hack var_raises andb];
-  unfold dup, mean_finish, var_finish, compute_result, qdivz;
+  unfold res_o, dup, mean_finish, var_finish, compute_result, qdivz;
   cbn [repaired mean_hack var_raises andb].
 Ltac by_batch new :=
   destruct new as [|r new];
-  [ cbn [length Z.of_nat col map psum pcount psumsq sq psize nonempty]
+  [ unfold col, psumsq, sq, psize; cbn [length Z.of_nat map psum pcount nonempty]
   | cbn [nonempty];
     let L := fresh "L" in let HL := fresh "HL" in
     set (L := Z.of_nat (length (r :: new)));
